@@ -346,7 +346,13 @@ func stackBurst(c *vlib.Cases, r *vlib.Rng, engine string, n int, prefix, epType
 				js = true
 				model, body = mkAnthropicBody(rr, i, size)
 			}
-			if (size > 1<<20 || len(body) > 1<<20) && !anthPT {
+			if js && !anthPT && rr.Chance(1, 10) {
+				// a JSON document saved with a byte order mark (PowerShell, .NET): whether the model name is found behind it
+				// is not the property's business ("*"), the bytes are
+				body = append([]byte{0xEF, 0xBB, 0xBF}, body...)
+				model = "*"
+			}
+			if (size > 1<<20 || len(body) > 1<<20) && !anthPT && model != "*" {
 				model = "" // beyond the inspector's peek window the model is not extracted (the Anthropic route parses the whole body)
 			}
 			method := "POST"
